@@ -648,6 +648,28 @@ pub fn c05_state(rp: &Position, b: &Board) -> Vec<Divergence> {
             if let Some(diff) = diff_position(&got, rp) {
                 d.push(Divergence::new("parse-wrong-board", format!("'{fen}' parsed wrongly: {diff}")));
             }
+            // the incremental builder is the third constructor: for every rights-free position (all the
+            // public API can assemble) it produces the identical board, derived state included
+            if !rp.rights.iter().any(|x| *x) {
+                let mut bld = Board::builder();
+                bld.turn(real_color(rp.turn)).half_move_clock(rp.half as u16).full_move_clock(rp.full as u16);
+                bld.enpassant(rp.ep.map(|f| chess_bitboard::File::from_u8(f as u8).unwrap()));
+                for s in 0..64u8 {
+                    if let Some((c, pc)) = rp.at(s) {
+                        let _ = bld.place(pos(s), real_color(c), real_piece(pc));
+                    }
+                }
+                match bld.build() {
+                    Ok(t) => {
+                        if t != p || t.half_move_clock() != p.half_move_clock() || t.full_move_clock() != p.full_move_clock() || t.zobrist() != p.zobrist() || t.to_string() != fen {
+                            d.push(Divergence::new("builder-differs-from-parser", format!("'{fen}': the builder's board writes '{t}'")));
+                        } else if format!("{t:?}") != format!("{p:?}") || t.in_check() != p.in_check() || t.state() != p.state() || t.legals().len() != p.legals().len() {
+                            d.push(Divergence::new("builder-derived-state-differs-from-parser", format!("'{fen}': same position, different check / pin information")));
+                        }
+                    }
+                    Err(e) => d.push(Divergence::new("builder-and-parser-disagree-on-acceptance", format!("'{fen}': parser accepts, builder: {e:?}"))),
+                }
+            }
         }
         Err(e) => d.push(Divergence::new("canonical-fen-rejected", format!("'{fen}' rejected: {e}"))),
     }
